@@ -270,6 +270,7 @@ impl Scheduler for Sched {
                 with_world(|w| w.begin_execution());
                 crate::obs::clear();
                 crate::chan::reset_streaks();
+                crate::aselect::reset_streaks();
                 return Some(Schedule::new(0));
             }
             // job exhausted: hand out its result, fetch the next one
